@@ -27,7 +27,7 @@ FRAME_IFACES = ['iter_array', 'iter_array_items', 'iter_series', 'iter_series_it
                 'iter_window_array', 'iter_window_array_items', 'iter_group_labels', 'iter_group_labels_items']
 BATCH_STEPS = ['apply', 'apply_items', 'apply_series', 'apply_element', 'iloc', 'loc_cols', 'mul', 'sum', 'getitem', 'head',
                'apply_except', 'apply_items_except', 'rename', 'sort_index', 'transpose', 'cumsum', 'drop', 'min', 'neg', 'loc_rows', 'tail',
-               'sum_noskip', 'mean', 'max', 'apply_none', 'apply_none_except', 'apply_grow', 'rsub', 'rmul', 'rfloordiv', 'apply_list', 'drop_getitem', 'drop_loc']
+               'sum_noskip', 'mean', 'max', 'apply_none', 'apply_none_except', 'apply_grow', 'rsub', 'rmul', 'rfloordiv', 'apply_list', 'drop_getitem', 'drop_loc', 'apply_ragged', 'iloc_nocols']
 
 
 def gen_cells(ch, nr, j, kind):
@@ -161,15 +161,15 @@ class PoolWorld(WorldBase):
         nr = ch.randint(2, 6)
         op = {'op': 'thread_pool', 'ctype': 'series', 'iface': 'iter_element',
               'spec': {'name': 'se', 'index': ROWL[:nr], 'hier': False, 'values': gen_cells(ch, nr, 1, ch.choice(['int', 'str']))},
-              'func': ch.choice(['build_and_probe', 'probe_shared', 'probe_shared', 'probe_bus', 'probe_bus_direct', 'probe_bus_whole', 'sample_in_task', 'alloc_probe']), 'mp': ch.choice([None, None, 1, 2]),
-              'k': ch.randint(2, 4), 'p': ch.choice([0.02, 0.05, 0.1, 0.3]), 'hw': ch.choice([1, 1, 8, 25]), 'stall': ch.choice([0, 3, 3, 8, 20]),
+              'func': ch.choice(['build_and_probe', 'probe_shared', 'probe_shared', 'probe_bus', 'probe_bus_direct', 'probe_bus_whole', 'probe_bus_iloc', 'sample_in_task', 'alloc_probe']), 'mp': ch.choice([None, None, 1, 2]),
+              'k': ch.randint(2, 4), 'p': ch.choice([0.02, 0.05, 0.1, 0.3]), 'hw': ch.choice([1, 1, 8, 25]), 'stall': ch.choice([0, 0, 3, 3, 8, 20]), 'rel': ch.chance(0.5),
               'grow_ih': ch.randint(0, 3), 'grow_ix': ch.randint(0, 3), 'n': ch.randint(1, 4)}
         if op['func'] == 'alloc_probe':
             op['sizes'] = ch.sample([2, 3, 5, 7, 9, 12, 17, 33], ch.randint(2, 4))
         if ch.chance(0.25):
             n = ch.randint(2, 5)
             return {'op': 'thread_batch', 'frames': [gen_frame(ch, 'b%d' % i, nr=ch.randint(1, 4), nc=ch.randint(1, 3), numeric=True, hier=False) for i in range(n)],
-                    'k': ch.randint(2, 4), 'p': ch.choice([0.02, 0.05, 0.1, 0.3]), 'hw': ch.choice([1, 1, 8, 25]), 'stall': ch.choice([0, 3, 3, 8, 20]), 'grow_ih': ch.randint(0, 3), 'grow_ix': ch.randint(0, 3), 'n': ch.randint(1, 4),
+                    'k': ch.randint(2, 4), 'p': ch.choice([0.02, 0.05, 0.1, 0.3]), 'hw': ch.choice([1, 1, 8, 25]), 'stall': ch.choice([0, 0, 3, 3, 8, 20]), 'rel': ch.chance(0.5), 'grow_ih': ch.randint(0, 3), 'grow_ix': ch.randint(0, 3), 'n': ch.randint(1, 4),
                     'shared': ch.chance(0.6), 'export': ch.choice(['to_frame', 'items', 'to_bus']), 'via': ch.choice(['apply', 'apply_items', 'attr', 'sample'])}
         if ch.chance(0.4):
             op['ctype'] = 'frame'
@@ -247,7 +247,7 @@ class PoolWorld(WorldBase):
         depth = ch.randint(1, 3)
         chain = [ch.choice(BATCH_STEPS) for _ in range(depth)]
         for i, st_ in enumerate(chain):
-            if st_ in ('sum', 'min', 'mean', 'max', 'sum_noskip', 'apply_element', 'apply_series', 'apply_none', 'apply_none_except', 'apply_list'):
+            if st_ in ('sum', 'min', 'mean', 'max', 'sum_noskip', 'apply_element', 'apply_series', 'apply_none', 'apply_none_except', 'apply_list', 'apply_ragged', 'iloc_nocols'):
                 chain = chain[:i + 1]  # nothing is chained after a dimension-reducing step
                 break
         op = {'op': 'batch_pool', 'frames': frames, 'chain': chain, 'export': ch.choice(['items', 'to_frame', 'to_bus', 'items_partial', 'to_frame_axis1']),
@@ -455,7 +455,7 @@ class PoolWorld(WorldBase):
                 return functools.partial(pf.alloc_probe, sizes=tuple(op.get('sizes', (3, 9, 5))))
             if op['func'] == 'sample_in_task':
                 return functools.partial(pf.sample_in_task, n=op.get('n', 2))
-            if op['func'] in ('probe_bus', 'probe_bus_direct', 'probe_bus_whole'):
+            if op['func'] in ('probe_bus', 'probe_bus_direct', 'probe_bus_whole', 'probe_bus_iloc'):
                 # one lazily loaded, possibly LRU-bounded Bus shared by all tasks
                 if self.dir is None:
                     self.dir = tempfile.mkdtemp(prefix='sfpool_', dir='/dev/shm' if os.path.isdir('/dev/shm') else None)
@@ -470,7 +470,7 @@ class PoolWorld(WorldBase):
         seq = call(lambda: self._node(c, op).apply(fn_for()))
         self.reset_globals()
         prefixes = (os.path.dirname(os.path.abspath(static_frame.__file__)) + os.sep, os.path.abspath(pf.__file__))
-        baton = Baton(dec_, op.get('p', 0.05), self.stats, prefixes, hot_weight=op.get('hw', 1), stall_gap=op.get('stall', 0))
+        baton = Baton(dec_, op.get('p', 0.05), self.stats, prefixes, hot_weight=op.get('hw', 1), stall_gap=op.get('stall', 0), stall_after_release=op.get('rel', False))
         sim = sx.PoolSim(dec_, self.stats, p_early=0.0, baton=baton)
         sx.CURRENT['sim'] = sim
         from sim.baton import patch_locks, unpatch_locks
@@ -531,7 +531,7 @@ class PoolWorld(WorldBase):
         seq = call(run, False)
         self.reset_globals()
         prefixes = (os.path.dirname(os.path.abspath(static_frame.__file__)) + os.sep, os.path.abspath(pf.__file__))
-        baton = Baton(dec_, op.get('p', 0.05), self.stats, prefixes, hot_weight=op.get('hw', 1), stall_gap=op.get('stall', 0))
+        baton = Baton(dec_, op.get('p', 0.05), self.stats, prefixes, hot_weight=op.get('hw', 1), stall_gap=op.get('stall', 0), stall_after_release=op.get('rel', False))
         sim = sx.PoolSim(dec_, self.stats, p_early=0.0, baton=baton)
         sx.CURRENT['sim'] = sim
         undo = patch_locks(baton)
@@ -576,6 +576,10 @@ class PoolWorld(WorldBase):
                 b = b.apply(functools.partial(pf.frame_to_element, fail_on=fail_label))
             elif step == 'apply_list':
                 b = b.apply(functools.partial(pf.frame_to_list, fail_on=fail_label))
+            elif step == 'apply_ragged':
+                b = b.apply(functools.partial(pf.frame_to_ragged, fail_on=fail_label))
+            elif step == 'iloc_nocols':
+                b = b.iloc[:, 0:0]  # every result keeps its rows and has no column
             elif step == 'apply_except':
                 b = b.apply_except(functools.partial(pf.frame_fn, fail_on=fail_label), Exception if self._except_any else pf.TaskFailure)
             elif step == 'apply_items_except':
@@ -734,6 +738,10 @@ class PoolWorld(WorldBase):
                         c = pf.frame_to_element(c, fail_on=fail_label)
                     elif step == 'apply_list':
                         c = pf.frame_to_list(c, fail_on=fail_label)
+                    elif step == 'apply_ragged':
+                        c = pf.frame_to_ragged(c, fail_on=fail_label)
+                    elif step == 'iloc_nocols':
+                        c = c.iloc[:, 0:0]
                     elif step == 'apply_except':
                         c = pf.frame_fn(c, fail_on=fail_label)
                     elif step == 'apply_items_except':
@@ -809,7 +817,14 @@ class PoolWorld(WorldBase):
                         break
                     raise
                 if not isinstance(c, (sf.Frame, sf.Series)):
-                    c = sf.Series.from_element(c, index=(None,))  # an element is presented as a one-cell Series
+                    # an element is presented as a one-cell Series; a sized element (list, nested list) is placed in an object
+                    # cell by hand - the reference must not depend on the library routine the Batch itself uses
+                    if hasattr(c, '__len__') and not isinstance(c, (str, bytes)):
+                        cell = np.empty(1, dtype=object)
+                        cell[0] = c
+                        c = sf.Series(cell, index=(None,))
+                    else:
+                        c = sf.Series.from_element(c, index=(None,))
             if not dropped:
                 out.append((label, c))
         return out
@@ -863,8 +878,17 @@ class PoolWorld(WorldBase):
             all_series = all(isinstance(v, sf.Series) for _, v in res)
             all_frames = all(isinstance(v, sf.Frame) for _, v in res)
             want = None
+            nocols = all_frames and axis == 0 and all(v.shape[1] == 0 and v.shape[0] > 0 for _, v in res)
+            if nocols:
+                # results that kept their rows and have no column: the export has all the rows (under the outer labels) and no column
+                if exp[0] == 'raise':
+                    raise Violation('C19.batch', 'Batch.' + ex, cls, f'exporter raised {type(exp[1]).__name__}: {exp[1]} for column-less results')
+                rows_want = sum(v.shape[0] for _, v in res)
+                if tuple(exp[1].shape) != (rows_want, 0):
+                    raise Violation('C19.batch', 'Batch.' + ex, cls, f'export of column-less results has shape {tuple(exp[1].shape)}, expected {(rows_want, 0)}')
+                self.stats['batch:export-checked'] += 1
             if any(0 in v.shape for _, v in res):
-                all_series = all_frames = False  # concatenation of zero-sized results is C11's territory
+                all_series = all_frames = False  # concatenation of (other) zero-sized results is C11's territory
             if all_series:
                 idx0 = snap(res[0][1])['index']['labels']
                 if all(snap(v)['index']['labels'] == idx0 for _, v in res) and len(set(map(repr, idx0))) == len(idx0):
